@@ -306,6 +306,9 @@ def gen_model_op(rng: random.Random, allow_fail: bool = True):
     if r < 0.10:
         text, tag = m_layer_norm(rng)
         return {"k": "model", "op": "rewrite", "rules": "layer_norm", "model": text}, "rewrite:" + tag
+    if r < 0.14:
+        text, tag = m_layer_norm(rng)
+        return {"k": "model", "op": "rewrite", "rules": "layer_norm_commute", "model": text}, "rewrite:commute:" + tag
     if r < 0.20:
         text, tag = m_rms_norm(rng)
         return {"k": "model", "op": "rewrite", "rules": "rms_norm", "model": text}, "rewrite:" + tag
@@ -451,6 +454,74 @@ def gen_script_globals(rng: random.Random, name: str):
     )
 
 
+def gen_script_ndarray(rng: random.Random, name: str):
+    """Globals that are mutable OBJECTS (numpy arrays, a TensorProto) used as tensor constants — via a tensor literal,
+    via `op.Constant(value=W)`, inside a loop body — then mutated in place / rebound after decoration."""
+    cells = {"W": rng.randint(1, 5), "V": rng.randint(1, 5), "T": rng.randint(1, 5)}
+    K = rng.randint(2, 6)
+    use_const_attr = rng.random() < 0.4
+    in_loop = rng.random() < 0.25
+
+    def ex(depth):
+        r = rng.random()
+        if depth <= 0 or r < 0.3:
+            return rng.choice(["x", "W", "V", "K", "W", "T"])
+        a, b = ex(depth - 1), ex(depth - 1)
+        return f"({a} {rng.choice(['+', '*'])} {b})"
+
+    body = ex(2)
+    if "x" not in body:
+        body = f"(x + {body})"
+    if not any(g in body for g in ("W", "V", "T")):
+        body = f"({body} * W)"
+    hdr = (
+        f"W = np.full(3, {cells['W']}, dtype=np.int64)\nV = np.full(3, {cells['V']}, dtype=np.int64)\n"
+        f"T = onnx.numpy_helper.from_array(np.full(3, {cells['T']}, dtype=np.int64), 'T')\nK = {K}\n"
+    )
+    src_body = body
+    if use_const_attr:
+        src_body = src_body.replace("W", "op.Constant(value=W)")
+    src_body = src_body.replace("T", "op.Constant(value=T)")
+    if in_loop:
+        src = f"@DEC\ndef {name}(x: INT64[3]):\n    y = x\n    for i in range(1):\n        y = {src_body}\n    return y\n"
+    else:
+        src = f"@DEC\ndef {name}(x: INT64[3]):\n    return {src_body}\n"
+    mut, later = [], dict(cells)
+    inplace_touch = False
+    for g in ("W", "V", "T"):
+        r = rng.random()
+        if r < 0.45:
+            if g == "T":
+                nv = rng.randint(10, 20)
+                mut.append([g, {"tensorproto": [nv] * 3}])
+                later[g] = nv
+            elif rng.random() < 0.5:
+                nv = rng.randint(10, 20)
+                mut.append([g, {"ndarray": [nv] * 3, "inplace_nd": True}])
+                later[g] = nv
+            else:
+                mut.append([g, {"ndarray": [2], "inplace_nd": "imul"}])
+                later[g] = cells[g] * 2
+            inplace_touch = inplace_touch or (g in body)
+        elif r < 0.65 and g != "T":
+            mut.append([g, {"ndarray": [rng.randint(10, 20)] * 3}])  # rebinding: the old object is untouched
+    if rng.random() < 0.5:
+        mut.append(["K", rng.randint(10, 20)])
+    if not mut:
+        mut.append(["W", {"ndarray": [17] * 3, "inplace_nd": True}])
+        later["W"] = 17
+        inplace_touch = inplace_touch or ("W" in body)
+    return (
+        {
+            "k": "script", "name": name, "src": src, "header": hdr, "rbody": body, "rglobals": {"W": "@0", "V": "@1", "T": "@2", "K": K},
+            "cells0": [cells["W"], cells["V"], cells["T"]], "cells1": [later["W"], later["V"], later["T"]],
+            "mutate": mut, "eager_x": [rng.randint(-3, 3) for _ in range(3)], "n_proto": 2, "want_consts": True,
+            "inplace_payload_in_body": inplace_touch, "in_loop": in_loop,
+        },
+        "script:ndarray" + (":attr" if use_const_attr else ":literal") + (":loop" if in_loop else ""),
+    )
+
+
 def gen_script_plain(rng: random.Random, name: str):
     k = rng.choice(["arith", "custom_opset", "listglobal", "subfn"])
     if k == "arith":
@@ -577,13 +648,16 @@ def gen_history_op(rng: random.Random, idx: int):
     if r < 0.55:
         return gen_script_bad(rng, f"h{idx}")
     if r < 0.72:
-        o, tg = rng.choice([gen_script_if, gen_script_plain, gen_script_globals])(rng, f"h{idx}")
+        o, tg = rng.choice([gen_script_if, gen_script_plain, gen_script_globals, gen_script_ndarray])(rng, f"h{idx}")
         if rng.random() < 0.6:
             o["proto_overrides"] = gen_overrides(rng) or {"producer_name": 3}
             tg += "+overrides"
         return o, tg
     if r < 0.82:
         return gen_pattern_op(rng)
+    if r < 0.85:
+        o, tg = gen_pattern_op(rng)
+        return {**o, "k": "evalctx"}, "evalctx"
     if r < 0.88:
         return {"k": "badpattern"}, "badpattern(fails)"
     if r < 0.94:
@@ -596,7 +670,7 @@ def gen_target(rng: random.Random, idx: int):
     if r < 0.5:
         return gen_model_op(rng, allow_fail=False)
     if r < 0.8:
-        return rng.choice([gen_script_if, gen_script_if, gen_script_plain, gen_script_globals])(rng, f"t{idx}")
+        return rng.choice([gen_script_if, gen_script_if, gen_script_plain, gen_script_globals, gen_script_ndarray])(rng, f"t{idx}")
     if r < 0.86:
         return {"k": "sugar"}, "sugar"
     if r < 0.92:
